@@ -363,6 +363,7 @@ def catalogue(g):
     add("method.name-String-Error", ["String() string", "Error() string"])
     # method names that are also promoted methods of the embedded testify mock.Mock but not part of the mocks' documented API (they work today)
     add("method.name-like-promoted-mock-method", ["Test(v any) bool", "On(s string) error", "TestData() int"])
+    add("method.name-like-promoted-mock-method-typed", ["Test(c context.Context, target string) error", "Maybe() bool"])
     add("method.name-lowercase-exported-mix", ["Exported()", "unexported(x int) string"] if g.allow_unexported else ["Exported()", "AlsoExported(x int) string"])
     # ---- identifiers
     for nm in PREDECLARED:
